@@ -562,12 +562,12 @@ Section B4.
     - (* SForNum *) intros n vl e1 e2 e3 b l IH1 IH2 IH3 IHb Hf Hs flv slv reg. cbn [frag_stat tb_shp_stat] in *.
       bs Hf. bs Hs.
       assert (Hv : VR (mkV n vl RNone false) ((n, vl), false)) by (repeat split; cbn; auto; discriminate).
-      pose proof (SimE_seq _ _ _ _ _ _ (sim_exp e1 flv slv reg ltac:(assumption)) (sim_exp e3 flv slv reg ltac:(assumption))) as S13.
-      pose proof (SimE_seq _ _ _ _ _ _ S13 (sim_exp e2 flv slv reg ltac:(assumption))) as S132.
+      pose proof (SimE_seq _ _ _ _ _ _ (sim_exp e1 flv slv reg ltac:(assumption)) (sim_exp e2 flv slv reg ltac:(assumption))) as S13.
+      pose proof (SimE_seq _ _ _ _ _ _ S13 (sim_exp e3 flv slv reg ltac:(assumption))) as S132.
       pose proof (SimCE_seq _ _ _ _ _ _ _ _ (sim_exp e1 flv slv reg ltac:(assumption))
                             (IH1 ltac:(assumption) ltac:(assumption) flv slv reg)
-                            (IH3 ltac:(assumption) ltac:(assumption) flv slv reg)) as C13.
-      pose proof (SimCE_seq _ _ _ _ _ _ _ _ S13 C13 (IH2 ltac:(assumption) ltac:(assumption) flv slv reg)) as C132.
+                            (IH2 ltac:(assumption) ltac:(assumption) flv slv reg)) as C13.
+      pose proof (SimCE_seq _ _ _ _ _ _ _ _ S13 C13 (IH3 ltac:(assumption) ltac:(assumption) flv slv reg)) as C132.
       pose proof (SimCS_seq _ _ _ _ _ _ _ _ (SimS_of_E _ _ _ S132) (SimCS_of_E _ _ _ C132)
                     (SimCS_seq _ _ _ _ _ _ _ _
                        (SimS_add _ _ (fun en => [decl_occ en flv (slv + 1) l false (n, vl)]) Hv (fun _ => eq_refl))
@@ -579,19 +579,8 @@ Section B4.
       + cbn [cl_stat]. cbv zeta beta. rewrite <- !andb_assoc. cbn [andb]. reflexivity.
       + reflexivity.
       + cbv beta. cbn [b_stat fst snd app].
-        set (lim := if has_func e3 then tag_if (fun o => flv <? s_flv o) CB5 (b_exp flv slv reg e2 en)
-                    else b_exp flv slv reg e2 en).
-        set (bnds := b_exp flv slv reg e1 en ++ lim ++ b_exp flv slv reg e3 en).
-        assert (Hlim : Le (b_exp flv slv reg e2 en) lim)
-          by (unfold lim; destruct (has_func e3); [apply Le_tag_if|apply Le_refl]).
-        assert (Hb : Le ((b_exp flv slv reg e1 en ++ b_exp flv slv reg e3 en) ++ b_exp flv slv reg e2 en) bnds).
-        { intros s Hs'. rewrite !in_app_iff in Hs'. destruct Hs' as [[H1|H3]|H2].
-          - exists s. split; [unfold bnds; apply in_or_app; left; exact H1|apply LeOcc_refl].
-          - exists s. split; [unfold bnds; apply in_or_app; right; apply in_or_app; right; exact H3|apply LeOcc_refl].
-          - destruct (Hlim s H2) as [s2 [Hin2 Hle2]]. exists s2.
-            split; [unfold bnds; apply in_or_app; right; apply in_or_app; left; exact Hin2|exact Hle2]. }
         apply Le_app_both; [|apply Le_refl].
-        eapply Le_trans; [exact Hb|apply Le_tag_if].
+        rewrite <- app_assoc. apply Le_tag_if.
     - (* SForIn *) intros ns ls es b l IHe IHb Hf Hs flv slv reg. cbn [frag_stat tb_shp_stat] in *. bs Hf. bs Hs.
       pose proof (SimE_list (fun a => tr_exp flv a) (fun a n0 => cl_exp n0 flv a) (fun a en => b_exp flv slv reg a en) es) as Sl.
       assert (Hsl : Forall (fun x => SimE (tr_exp flv x) (fun n0 => cl_exp n0 flv x) (fun en => b_exp flv slv reg x en)) es).
